@@ -70,6 +70,14 @@ CHECKS = {
              "every member that the real rollout inverts flattening (leaf identity, optional markers) and is the identity on "
              "nested input. (Dict insertion hashes keys, so keys cannot stay symbolic - stated.)",
         design="4/C18"),
+    "C19": dict(
+        text="Menu-bounded exhaustive enumeration driven by the solver: 3-statement modules are assembled from a grammar of "
+             "statement forms, import layouts, v1 modules, name selections, aliases and line joins chosen by symbolic "
+             "indices; CrossHair+z3 enumerate the finite product and confirm on every member that the real rewrite_imports "
+             "returns valid Python whose AST differs from the input's only by the expected import replacements; every "
+             "mapping entry is rewritten on its own and its target imported. (Source text goes through CPython's parser, "
+             "so it cannot stay symbolic - the solver is an exhaustive enumerator here, stated.)",
+        design="4/C19"),
     "C10": dict(
         text="Bounded symbolic execution of the real declaration methods, one harness per call chain: every argument "
              "is a symbolic scalar of any of five types or a solver-chosen member of a wrong-type menu. Solver must "
@@ -116,10 +124,6 @@ NOT_YET = {
 }
 
 NOT_APPLICABLE = {
-    "C19": "rewrite_imports consumes Python source through CPython's C parser (ast.parse) and splices "
-           "physical lines; a symbolic string is concretised at that boundary, so the solver would see "
-           "one concrete program per path. Encoding Python's grammar/position bookkeeping in SMT is out "
-           "of reach; enumerating concrete programs would be testing, i.e. a different technique.",
 }
 
 
